@@ -526,6 +526,9 @@ func (m *model) fairCheckPick(wk *workerSim, vt *scheduler.VerifTask, now time.T
 	if nQueuedTasks >= 2 {
 		m.labels["fair_choice_among_2plus"]++
 	}
+	if tree.hasDirectAndQueuedChildren() {
+		m.labels["fair_direct_operations_vs_queued_children"]++
+	}
 	ok := false
 	retained := 0
 	for _, o := range vt.Operations {
@@ -622,4 +625,25 @@ func (m *model) fairCheckHandOff(wk *workerSim, vt *scheduler.VerifTask, now tim
 		fw.starts[l] = now
 	}
 	fw.lastInv = nil
+}
+
+// hasDirectAndQueuedChildren reports whether some invocation on the path
+// the decision walks holds both directly queued operations and a queued
+// child invocation (the documented policy serves the direct ones first).
+func (n *fNode) hasDirectAndQueuedChildren() bool {
+	queuedChild := false
+	for _, c := range n.children {
+		if c.isQueued() {
+			queuedChild = true
+		}
+	}
+	if len(n.ops) > 0 && queuedChild {
+		return true
+	}
+	for _, c := range n.children {
+		if c.hasDirectAndQueuedChildren() {
+			return true
+		}
+	}
+	return false
 }
